@@ -143,6 +143,7 @@ def impl_one(case):
         def after_eval(s, d, e, r): s.ev.append(f"A{d}@{s.sp(e)}#{0 if isinstance(r, BaseException) else KIND.get(type(r).__name__, 6)}")
     rec = Rec() if trace else None
     src = "".join(l + "\n" for l in lines)
+    if case.get("noeol") and src: src = src[:-1]          # the last line without its line feed: still one line
     old_in, old_out = sys.stdin, sys.stdout
     sys.stdin = io.StringIO(src); out = io.StringIO(); sys.stdout = out
     signal.signal(signal.SIGALRM, _alarm); signal.setitimer(signal.ITIMER_REAL, case.get("tlimit", 3.0))
@@ -164,7 +165,7 @@ def impl_one(case):
     finally:
         signal.setitimer(signal.ITIMER_REAL, 0); sys.stdout = old_out
         rest_txt = sys.stdin.read(); sys.stdin = old_in
-    rest = len(rest_txt.split("\n")) - 1 if src else 0
+    rest = (len(rest_txt.split("\n")) - 1 + (1 if rest_txt and not rest_txt.endswith("\n") else 0)) if src else 0
     return f"{res}\tOUT {','.join(str(ord(c)) for c in out.getvalue())}\tREST {rest}\tEV {' '.join(rec.ev) if rec else ''}"
 
 def _pool_init():
